@@ -464,9 +464,10 @@ def nextOperation (c : Cfg) : M (Option SState) := do
     if ← ask .conflicting then return some .conciliation else return some .operation
   else masterState c
 
-/-- `ConciliationState` (its `_master_next` does not call the `_WorkingState` one) -/
+/-- `ConciliationState` -/
 def nextConciliation (c : Cfg) : M (Option SState) := do
   if ← isMaster c then
+    masterFailJobs
     if ← ask .starterBusy then return some .conciliation
     if ← ask .stopperBusy then return some .conciliation
     if !(← ask .conflicting) then return some .operation
@@ -604,7 +605,9 @@ def handleAuth (c : Cfg) (j code ts : Nat) : M Unit := do
 
 def handleAllinfoNone (c : Cfg) (j : Nat) : M Unit := do
   if !(← isValid j) then return
-  setPeerState c j .stopped
+  -- `Context.load_processes(status, None)`: only a CHECKING instance goes back to STOPPED
+  if (← getPeer j).state = .checking then
+    setPeerState c j .stopped
 
 /-- INSTANCE_FAILURE notification about `j` -/
 def handleFailure (c : Cfg) (j : Nat) : M Unit := do
